@@ -196,9 +196,9 @@ func main() {
 	for _, c := range cseq {
 		r.Add(c)
 	}
-	nseq, ndrift := r.N(2500), r.N(300)
+	nseq, ndrift := r.N(12000), r.N(1000)
 	if f.Tier == "thorough" {
-		nseq, ndrift = r.N(120000), r.N(5000)
+		nseq, ndrift = r.N(400000), r.N(20000)
 	}
 	for _, c := range shapedSeqCases() {
 		r.Add(c)
@@ -220,9 +220,9 @@ func main() {
 	runConc(r, f)
 
 	// ---- real goroutines on the real package: supporting evidence only ----
-	iters := r.N(3000)
+	iters := r.N(5000)
 	if f.Tier == "thorough" {
-		iters = r.N(60000)
+		iters = r.N(200000)
 	}
 	prune(r, 5)
 	r.Res.Extra["stress_real_goroutines"] = stress(iters, f.Seed)
